@@ -749,7 +749,11 @@ func execCtl(prop string, raw json.RawMessage, wantLog bool) (out Outcome) {
 					if st.removalUnknown[n.idx] {
 						continue // it may have been removed: its own view is not constrained
 					}
-					got := n.parts.ClusterConn.Nodes()
+					got, free := n.parts.ClusterConn.VerifNodes()
+					if !free {
+						r.viol("control-plane-wedged/address-book-lock-held-forever", "%s: with everything settled and every goroutine blocked, n%d's address book is still locked: whoever applies the membership log there waits for it", phase, n.idx)
+						return false
+					}
 					for id, addr := range want {
 						if got[id] != addr {
 							cls := "member-missing"
